@@ -196,11 +196,26 @@ class Interval(Operation):
 
 class Exists(Operation):
     def __init__(self, query):
-        self.query = query
         super().__init__(op='exists', args=[query])
+
+    @property
+    def query(self):
+        # single source of truth: the sub-select is the only argument (a tree rewrite may replace it)
+        return self.args[0]
+
+    @query.setter
+    def query(self, value):
+        self.args[0] = value
 
 
 class NotExists(Operation):
     def __init__(self, query):
-        self.query = query
         super().__init__(op='not exists', args=[query])
+
+    @property
+    def query(self):
+        return self.args[0]
+
+    @query.setter
+    def query(self, value):
+        self.args[0] = value
